@@ -94,6 +94,9 @@ var c12Templates = []string{
 	"{namespace a}\n/** @param x */\n{template .t}\n{if $x == 'never'}y{/if}\n{/template}\n",
 	// 12: a template that calls itself (output before, inside and after the recursion)
 	"{namespace a}\n/** @param x\n @param? n */\n{template .t}\n[{$x}{if not $n}{call .t data=\"all\"}{param n: 1 /}{/call}{elseif $n == 1}{call .t}{param x: $x /}{param n: 2 /}{/call}{/if}]\n{/template}\n",
+	// 13: prints whose last directive is each of the encoding directives, as the last output
+	"{namespace a}\n/** @param x */\n{template .t}\n{$x|escapeUri}{$x|truncate:3}{$x|changeNewlineToBr}{$x|insertWordBreaks:2}{$x|json}{$x|truncate:3|escapeJsString}{$x|escapeJsString}\n{/template}\n",
+	"{namespace a}\n/** @param x */\n{template .t}\n{$x|escapeJsString}{$x|json}{$x|escapeUri}\n{/template}\n",
 }
 
 // c12Bundle: a catalogue translating the message of template 2 (text and placeholder parts are
